@@ -149,6 +149,7 @@ func (e *C11) Run(c *core.Ctx, idx int) {
 			parts.Align = 1 + r.Intn(41) // a nested header close to a 4 KiB boundary of the stream
 		}
 		parts.OddSiblings = r.Chance(1, 4)
+		parts.CanonTop = r.Chance(1, 6)
 		cr3 := gen.BuildCR3(r, parts, r.Pick(0, 1, 2, 3), r.Chance(1, 3))
 		top, named = cr3.Top, cr3.Named
 		data = cr3.Bytes
@@ -203,7 +204,7 @@ func (e *C11) Run(c *core.Ctx, idx int) {
 	for _, t := range top {
 		seq += t.Type + ","
 	}
-	cbMode := r.Intn(4)      // 0 ReadAll, 1 nothing, 2 part, 3 odd-sized reads
+	cbMode := r.Intn(6)      // 0 ReadAll, 1 nothing, 2 part, 3 odd-sized reads, 4 Read+Discard+Read, 5 Peek+Discard+Read interleaved
 	cbFail := r.Chance(1, 6) // the callback reports an error after consuming what its mode says
 	desc := fmt.Sprintf("top=[%s] heif=%v malformed=%v cb=%d cbfail=%v len=%d", seq, heif, malformed, cbMode, cbFail, len(data))
 	errCallback := errors.New("verif: callback rejects the payload")
@@ -224,7 +225,9 @@ func (e *C11) Run(c *core.Ctx, idx int) {
 	rd := isobmff.NewReader(br)
 	defer rd.Close()
 	callbacks := 0
+	var skipped [][2]int // (offset, length) of stretches the current callback skipped with Discard
 	consume := func(src io.Reader) (b []byte, clean bool) {
+		skipped = skipped[:0]
 		switch cbMode {
 		case 0:
 			b, err := io.ReadAll(src)
@@ -235,6 +238,51 @@ func (e *C11) Run(c *core.Ctx, idx int) {
 			buf := make([]byte, r.Range(1, 500))
 			n, _ := io.ReadFull(src, buf)
 			return buf[:n], false
+		case 4, 5:
+			// the reader handed to a callback also offers Peek and Discard (the library's own Exif
+			// reader uses them through a type assertion); a consumer may mix them with Read. Bytes
+			// skipped with Discard are recorded as what Peek showed, or as "unknown" (matched by
+			// position) when they were not peeked.
+			pd, ok := src.(interface {
+				Peek(int) ([]byte, error)
+				Discard(int) (int, error)
+			})
+			if !ok {
+				b, err := io.ReadAll(src)
+				return b, err == nil
+			}
+			var all []byte
+			for step := 0; step < 6; step++ {
+				if cbMode == 4 || step%2 == 0 {
+					buf := make([]byte, r.Pick(1, 4, 16, 100, 700))
+					n, err := src.Read(buf)
+					all = append(all, buf[:n]...)
+					if err != nil {
+						return all, err == io.EOF
+					}
+				}
+				k := r.Pick(1, 2, 8, 32, 200, 1000)
+				if cbMode == 5 {
+					pk, err := pd.Peek(k)
+					if err != nil {
+						k = len(pk)
+					}
+					if len(pk) < k {
+						k = len(pk)
+					}
+					n, _ := pd.Discard(k)
+					if n > len(pk) {
+						n = len(pk)
+					}
+					all = append(all, pk[:n]...)
+				} else {
+					n, _ := pd.Discard(k)
+					skipped = append(skipped, [2]int{len(all), n})
+					all = append(all, make([]byte, n)...)
+				}
+			}
+			rest, err := io.ReadAll(src)
+			return append(all, rest...), err == nil
 		default:
 			var all []byte
 			buf := make([]byte, r.Pick(1, 5, 127, 2049, 5000))
@@ -250,7 +298,22 @@ func (e *C11) Run(c *core.Ctx, idx int) {
 			}
 		}
 	}
-	full := cbMode == 0 || cbMode == 3
+	// sameBytes compares what a consumer gathered with the payload, taking stretches it skipped
+	// with Discard (without looking) from the payload itself: only their length counts.
+	sameBytes := func(got, want []byte) bool {
+		if len(got) != len(want) {
+			return false
+		}
+		g := append([]byte(nil), got...)
+		for _, sk := range skipped {
+			if sk[0]+sk[1] <= len(g) {
+				copy(g[sk[0]:sk[0]+sk[1]], want[sk[0]:sk[0]+sk[1]])
+			}
+		}
+		skipped = skipped[:0]
+		return bytes.Equal(g, want)
+	}
+	full := cbMode == 0 || cbMode >= 3
 	cmtSeen := map[ifds.IfdType]int{}
 	curEnd := len(data) // end of the top-level box being processed
 	escaped := func(what string) {
@@ -281,7 +344,7 @@ func (e *C11) Run(c *core.Ctx, idx int) {
 			viol("bmff:exif-header", fmt.Sprintf("%s header (order %v, first %d, len %d) does not describe the payload (order %v, first %d, len %d)", name, h.ByteOrder, h.FirstIfdOffset, h.ExifLength, bo, o.Uint32(pl[4:]), len(pl)))
 		}
 		if full {
-			if !bytes.Equal(got, pl[8:]) {
+			if !sameBytes(got, pl[8:]) {
 				viol("bmff:exif-bytes", fmt.Sprintf("%s callback reader yielded %d bytes, payload after the TIFF header has %d (or content differs)", name, len(got), len(pl)-8))
 			} else if !clean {
 				viol("bmff:exif-eof", name+" callback reader did not end with a clean EOF")
@@ -299,7 +362,7 @@ func (e *C11) Run(c *core.Ctx, idx int) {
 			return cbErr()
 		}
 		if full {
-			if !bytes.Equal(got, parts.XMP) {
+			if !sameBytes(got, parts.XMP) {
 				viol("bmff:xmp-bytes", fmt.Sprintf("XMP callback reader yielded %d bytes, xpacket payload has %d (or content differs)", len(got), len(parts.XMP)))
 			} else if !clean {
 				viol("bmff:xmp-eof", "XMP callback reader did not end with a clean EOF")
@@ -320,7 +383,7 @@ func (e *C11) Run(c *core.Ctx, idx int) {
 			viol("bmff:prvw-header", fmt.Sprintf("preview header %+v, file has size %d w %d h %d", h, len(parts.Preview), parts.PrvwW, parts.PrvwH))
 		}
 		if full {
-			if !bytes.Equal(got, parts.Preview) {
+			if !sameBytes(got, parts.Preview) {
 				viol("bmff:prvw-bytes", fmt.Sprintf("preview callback reader yielded %d bytes, PRVW holds %d (or content differs)", len(got), len(parts.Preview)))
 			} else if !clean {
 				viol("bmff:prvw-eof", "preview callback reader did not end with a clean EOF")
@@ -382,7 +445,7 @@ func (e *C11) Run(c *core.Ctx, idx int) {
 		}
 		// through the top-level helpers (they call ReadMetadata a fixed number of times, so only
 		// files whose boxes come in the canonical order qualify)
-		if parts.TopNoise == 0 && parts.XMP != nil && parts.Preview != nil {
+		if parts.TopNoise == 0 && !parts.CanonTop && parts.XMP != nil && parts.Preview != nil {
 			imagemeta.VerifResetState()
 			pv, perr := imagemeta.PreviewCR3(mon.NewRS(data))
 			c.Rec.Eval(1)
